@@ -175,6 +175,11 @@ func (rig *c08Rig) present(e c08Elem) {
 		put(" \n")
 	case "newline":
 		put("\n")
+	case "nan-text":
+		// text that spells a float but no integer reading: not a number a sysfs attribute or a value file holds
+		put(pick(rand.New(rand.NewSource(int64(len(rig.path)))), "nan\n", "NaN\n"))
+	case "inf-text":
+		put("-Inf\n")
 	}
 }
 
@@ -284,7 +289,7 @@ func c08Kinds(sensor string) []string {
 	if sensor == "cmd" {
 		return []string{"ok", "ok", "exit1", "garbage", "nan", "inf", "-inf", "empty", "stderr-only"}
 	}
-	return []string{"ok", "ok", "missing", "empty", "nonnumeric", "eio", "eacces", "prefix-garbage", "unit-suffix", "exponent", "torn-write", "hex", "blank", "newline"}
+	return []string{"ok", "ok", "missing", "empty", "nonnumeric", "eio", "eacces", "prefix-garbage", "unit-suffix", "exponent", "torn-write", "hex", "blank", "nan-text", "inf-text"}
 }
 
 func c08Val(r *rand.Rand, sensor string) float64 {
